@@ -147,12 +147,18 @@ def loRhs (p : StorageP) (g : Grid) (a e i : Nat) : Rat :=
   if i + 1 = e then p.endLevel - blockStart p a - blockInfl p g a i
   else -(blockStart p a) - blockInfl p g a i
 
-/-- with a maximum holding duration the "full" rows become `(A x)_i - b_i·ind_i ≤ 0` with the ORIGINAL
-    right-hand side `b_i` (F-05d) -/
+/-- upper limit of the fill level itself (`level_max`): the size, and the end level at the last step of
+    the window / of every block -/
+def levelMax (p : StorageP) (e i : Nat) : Rat := if i + 1 = e then p.endLevel else p.size
+
+/-- with a maximum holding duration the "full" rows `(A x)_i ≤ b_i` become
+    `(A x)_i − level_max_i·ind_i ≤ b_i − level_max_i`, i.e. `level_i ≤ level_max_i·ind_i`
+    (code after the repair of F-05d) -/
 def upperRow (p : StorageP) (g : Grid) (n a e i : Nat) : Row :=
   match p.maxStoreDuration with
   | none => { coeffs := levelCoeffs p n a i, rhs := upRhs p g a e i, kind := .U }
-  | some _ => { coeffs := levelCoeffs p n a i ++ [(mHold p n + i, -(upRhs p g a e i))], rhs := 0, kind := .U }
+  | some _ => { coeffs := levelCoeffs p n a i ++ [(mHold p n + i, -(levelMax p e i))],
+                rhs := upRhs p g a e i - levelMax p e i, kind := .U }
 
 def lowerRow (p : StorageP) (g : Grid) (n a e i : Nat) : Row :=
   { coeffs := levelCoeffs p n a i, rhs := loRhs p g a e i, kind := .L }
